@@ -46,6 +46,7 @@ structure Cfg where
 /-- a task the framework has queued (payloads of asynchronous writes travel here) -/
 inductive Task where
   | asyncWrite (c : String) (data : List Nat)
+  | asyncWritev (c : String) (segs : List (List Nat))
   | read0 (c : String)
   | write0 (c : String)
   | wake (c : String)
@@ -639,6 +640,9 @@ def exec : Nat → Work → M Ret
         | "asyncwrite" =>
           modify fun s => { s with tasks := s.tasks ++ [.asyncWrite c (parseHexSegs arg).flatten] }
           checkHop op 0 "nil" []
+        | "asyncwritev" =>
+          modify fun s => { s with tasks := s.tasks ++ [.asyncWritev c (parseHexSegs arg)] }
+          checkHop op 0 "nil" []
         | "wake" =>
           modify fun s => { s with tasks := s.tasks ++ [.wake c] }
           checkHop op 0 "nil" []
@@ -717,6 +721,13 @@ def exec : Nat → Work → M Ret
         exec fuel .closeConns
       | _ => pure {}
 
+/-- is `t` a queued asynchronous write or writev of connection `c`? (AsyncWrite and AsyncWritev
+    tasks of one connection are carried out in the order they were issued) -/
+def isAsyncOut (c : String) : Task → Bool
+  | .asyncWrite c' _ => c' == c
+  | .asyncWritev c' _ => c' == c
+  | _ => false
+
 /-- one top-level item of a round: an event dispatch or a queued task -/
 def topLevel (fuel : Nat) : M Code := do
   match ← peekTok with
@@ -729,9 +740,10 @@ def topLevel (fuel : Nat) : M Code := do
       let r ← exec fuel (.processIO c (a.toNat?.getD 0)); pure r.code
     | .enter "asyncWrite" c _ => do
       let _ ← pop
-      -- the oldest queued asynchronous write of this connection takes effect now
+      -- the oldest queued asynchronous write or writev of this connection takes effect now; it
+      -- must be a plain write (AsyncWrite and AsyncWritev tasks share one FIFO queue)
       let s ← get
-      match s.tasks.find? (fun t => match t with | .asyncWrite c' _ => c' == c | _ => false) with
+      match s.tasks.find? (isAsyncOut c) with
       | some (.asyncWrite _ data) =>
         set { s with tasks := s.tasks.erase (.asyncWrite c data) }
         let x ← getConn c
@@ -739,7 +751,24 @@ def topLevel (fuel : Nat) : M Code := do
         else
           let r ← exec fuel (.connWrite c data)
           pure (if r.code == .shutdown then .shutdown else .nil)
+      | some (.asyncWritev _ _) =>
+        throw s!"asyncWrite task for {c} runs but the oldest pending asynchronous write of {c} is a writev (asynchronous writes must be carried out in issue order)"
       | _ => throw s!"asyncWrite task for {c} runs but no asynchronous write is pending"
+    | .enter "asyncWritev" c _ => do
+      let _ ← pop
+      -- the same for Conn.AsyncWritev: the task function performs c.writev(segments)
+      let s ← get
+      match s.tasks.find? (isAsyncOut c) with
+      | some (.asyncWritev _ segs) =>
+        set { s with tasks := s.tasks.erase (.asyncWritev c segs) }
+        let x ← getConn c
+        if !x.opened then pure .nil
+        else
+          let r ← exec fuel (.connWritev c segs)
+          pure (if r.code == .shutdown then .shutdown else .nil)
+      | some (.asyncWrite _ _) =>
+        throw s!"asyncWritev task for {c} runs but the oldest pending asynchronous write of {c} is a plain write (asynchronous writes must be carried out in issue order)"
+      | _ => throw s!"asyncWritev task for {c} runs but no asynchronous writev is pending"
     | .enter "wake" c _ => do
       modify fun s => { s with tasks := s.tasks.erase (.wake c) }
       let r ← exec fuel (.wake c); pure r.code
